@@ -22,6 +22,7 @@ MC_PROPERTIES = ["C02_Stable", "C03_Fresh", "C08_Monotone"]
 
 # Event kinds whose presence makes a recorded history non-trivial for a property.
 RELEVANT = {
+    "C14": {"http"},
     "C01": {"s.post"}, "C02": {"s.ack"}, "C03": {"s.pull"}, "C04": {"s.expire"}, "C05": {"s.mod"},
     "C08": {"t.accept"}, "C09": {"s.pull", "srecv"}, "C10": {"m.ct", "m.cs", "m.rs", "m.rt"},
     "C11": {"t.remove", "t.delete", "s.del1"}, "C13": {"m.lt", "m.ls", "t.list"}, "C15": {"s.pull"},
@@ -323,8 +324,12 @@ def plan_c09(prop, tier, seed, t0):
     over = dict(TopicNames={T1, T2}, SubNames={S1}, ModSecs={0}, AckRefs={1}, Advances={2}, PullMaxes={2},
                 OpKinds={"CreateTopic", "DeleteTopic", "CreateSub", "Publish", "Pull", "ModAck", "Advance"},
                 MaxOps=7, MaxMsgs=3)
+    def extra(quick, sd):
+        # the same payload classes through the HTTP push path
+        import plan_push
+        return [s for s in plan_push.c14_scenarios([], sd, quick, call, scn) if s["id"] == "c14-payloads"]
     return core_check(prop, tier, seed, t0, over, special=True, explore=[("mixed", 32, 1000)],
-                      scen={"quick": 200, "thorough": 3000},
+                      scen={"quick": 200, "thorough": 3000}, extra_scenarios=extra,
                       thorough={"mc": dict(MaxOps=8, MaxMsgs=4)})
 
 
@@ -1134,4 +1139,5 @@ PLANS = {
     "C01": plan_c01, "C02": plan_c02, "C03": plan_c03, "C04": plan_c04, "C05": plan_c05,
     "C08": plan_c08, "C09": plan_c09, "C10": plan_c10, "C11": plan_c11, "C13": plan_c13, "C15": plan_c15,
     "C12": plan_c12, "C07": plan_c07, "C06": plan_c06, "C16": plan_c16, "C18": plan_c18, "C19": plan_c19,
+    "C14": lambda prop, tier, seed, t0: __import__("plan_push").plan_c14(prop, tier, seed, t0),
 }
